@@ -1254,6 +1254,8 @@ _KINDS = {'never', 'int', 'bool', 'str', 'bytes', 'unit', 'const', 'named', 'fn'
 class Program:
     def __init__(self, facts):
         known = load_known_functions()
+        self.type_renames = detect_adt_renames(facts)
+        facts = apply_renames(facts, self.type_renames)
         self.renames = detect_renames(facts, known, load_known_signatures())
         facts = apply_renames(facts, self.renames)
         self.field_renames = detect_field_renames(facts, load_known_structs())
@@ -1932,6 +1934,34 @@ def load_known_structs():
             return json.load(f)
     except (OSError, ValueError):
         return {}
+
+
+def _adt_sig(a):
+    self_name = a['path']
+    return json.dumps([a.get('kind'), [[v['name'] if v['name'] != self_name.rsplit('::', 1)[-1] else '$self', [[fl['name'], fl['ty'].replace(self_name, '$self')] for fl in v['fields']]] for v in a['variants']]])
+
+
+def detect_adt_renames(facts):
+    """{current type path: pinned type path} for crate types that were renamed or moved: a pinned type that no longer
+    exists and exactly one new type with the same kind, variants and fields"""
+    p = _os.path.join(_os.path.dirname(_os.path.abspath(__file__)), 'known_adts.json')
+    try:
+        with open(p) as f:
+            pinned = json.load(f)
+    except (OSError, ValueError):
+        return {}
+    cur = {a['path']: _adt_sig(a) for a in facts.get('adts', [])}
+    missing = [q for q in pinned if q not in cur]
+    fresh = [q for q in cur if q not in pinned]
+    out = {}
+    for old in sorted(missing):
+        cands = [q for q in fresh if cur[q] == pinned[old] and q not in out]
+        if len(cands) > 1:
+            same_mod = [q for q in cands if q.rsplit('::', 1)[0] == old.rsplit('::', 1)[0]]
+            cands = same_mod if len(same_mod) == 1 else cands
+        if len(cands) == 1:
+            out[cands[0]] = old
+    return out
 
 
 def detect_field_renames(facts, pinned):
